@@ -1187,15 +1187,15 @@ Qed.
 (* ===================================================================================== *)
 (** * Witnesses (findings) and non-vacuity                                                 *)
 
-(* C12, rows: "=A$1048576" in A1, one row inserted at row 2: the statement asks for "#REF!";
-   the rewrite yields the text "A$1048577", which is neither "#REF!" nor a reference *)
+(* C12, rows: "=B$1048576" in A1, one row inserted at row 2: the statement asks for "#REF!";
+   the rewrite yields the text "B$1048577", which is neither "#REF!" nor a reference *)
 Theorem ins_row_overflow_refuted :
   exists s r k same q a,
     0 < k /\ grid q /\ grid (resolve q a) /\ a_sheet a = s /\
     r <= fst (resolve q a) /\ LAST_ROW < fst (resolve q a) + k /\
     apply_disp_full (DRow s r k) same q a = RwUnreadable /\
     apply_disp_full (DRow s r k) same q a <> RwRefError /\
-    displace_text (DRow s r k) false false q a = [65; 36; 49; 48; 52; 56; 53; 55; 55] /\
+    displace_text (DRow s r k) false false q a = [66; 36; 49; 48; 52; 56; 53; 55; 55] /\
     parse_reference_a1 (displace_text (DRow s r k) false false q a) = None.
 Proof.
   exists 0, 2, 1, true, (1, 1), row_overflow_witness. vm_compute.
